@@ -51,7 +51,7 @@ FRESH = {
     'Cudd_bddExistAbstract', 'Cudd_bddUnivAbstract', 'Cudd_bddAndAbstract', 'Cudd_Support',
     'Cudd_bddCompose', 'Cudd_bddVectorCompose', 'Cudd_Cofactor', 'Cudd_bddSwapVariables',
     'Cudd_bddRestrict', 'Cudd_CubeArrayToBdd', 'Cudd_bddComputeCube', 'Cudd_bddTransfer',
-    'Cudd_bddTransferRename', 'cuddUniqueInter', 'Cudd_bddIthVar', 'Cudd_bddNewVar',
+    'Cudd_bddTransferRename', 'cuddUniqueInter', 'Cudd_bddNewVar',
     'Cudd_bddNewVarAtLevel',
     'Cudd_zddDiff', 'Cudd_zddIntersect', 'Cudd_zddUnion', 'Cudd_zddIte', 'cuddZddIte',
     'Cudd_zddIthVar', 'Cudd_zddSupport', 'Cudd_zddSubset0', 'Cudd_zddSubset1',
@@ -65,9 +65,14 @@ FRESH = {
     'bdd_ithvar', 'bdd_nithvar', 'bdd_support',
 }
 OWNED = {'Dddmp_cuddBddLoad'}
+# may create nodes, but the result is a projection function, which the manager references itself
+PERMANENT = {'Cudd_bddIthVar'}
+RECURSIVE_DEREFS = {'Cudd_RecursiveDeref', 'Cudd_RecursiveDerefZdd', 'Cudd_IterDerefBdd'}
+ALLOCS = {'PyMem_Malloc'}
+FREES = {'PyMem_Free', 'FREE'}
 BORROWED = {
     'Cudd_Not', 'Cudd_Regular', 'Cudd_T', 'Cudd_E', 'Cudd_ReadOne', 'Cudd_ReadLogicZero',
-    '_int_to_ddref', '<DdRef>', 'Cudd_ReadZddOne', 'Cudd_ReadZero', 'DD_ONE', 'DD_ZERO',
+    '_int_to_ddref', '<DdRef>', 'DdNode.next', 'Cudd_ReadZddOne', 'Cudd_ReadZero', 'DD_ONE', 'DD_ZERO',
     'cuddT', 'cuddE', 'sylvan_not', 'sylvan_low', 'sylvan_high', 'sylvan_true', 'sylvan_false',
     'bdd_true', 'bdd_false', 'bdd_low', 'bdd_high',
 }
@@ -154,9 +159,18 @@ roles_of = cpyx.roles_of
 # reference traces: Python re-implementation of the rules of DD/CWrap.lean
 # ---------------------------------------------------------------------------
 
+ARRAY_LEAK = 'a C array allocated on this path is not freed'
+
+
 def run_path(events, returns_node, local, float_check):
-    """None when the path is fine, else (index of the offending event, reason)."""
+    """None when the path is fine, else (index of the offending event, reason).
+
+    Nodes: `held` = references this function owns, `in_cont` = references that containers followed
+    on this path own.  Containers (C arrays, dicts, hash tables): `owned` / `borrowed` = what was
+    stored with / without a reference, `may_hold` = handed to a function of the same module,
+    `released` = every element dereferenced and nothing stored since."""
     st = {}
+    cs = {}
 
     def kind_of(fn):
         if fn in FRESH:
@@ -165,25 +179,43 @@ def run_path(events, returns_node, local, float_check):
             return 'owned'
         if fn in BORROWED:
             return 'borrowed'
+        if fn in PERMANENT:
+            return 'permanent'
         if fn in local:
             return 'fresh'
         return None
 
+    def node(x, kind, held=0, exposed=False, made_from=(), from_cont=None):
+        return dict(kind=kind, held=held, refs=0, derefs=0, wraps=0, null=False, exposed=exposed,
+                    made_from=tuple(made_from), in_cont=0, from_cont=from_cont)
+
     def protected(n):
-        return n['kind'] == 'borrowed' or n['held'] > 0 or n['wraps'] > 0 or n['null']
+        return (n['kind'] in ('borrowed', 'permanent') or n['held'] > 0 or n['wraps'] > 0 or n['null']
+                or n['in_cont'] > 0)
 
     def end(k):
         for x, n in sorted(st.items()):
             if n['held'] != 0:
                 return (k, f'path ends while holding (or having given away) a reference on node {x}')
+        for x, n in sorted(st.items()):
             if n['wraps'] > 1:
                 return (k, f'node {x} wrapped more than once')
+        for c, q in sorted(cs.items()):
+            if q['kind'] != 'param' and (q['owned'] or q['may_hold']):
+                return (k, f'path ends while container {c} of this function still holds references')
+        for c, q in sorted(cs.items()):
+            if q['kind'] == 'param' and q['ever_released'] != q['freed']:
+                return (k, f'container {c} of the caller is released without being consumed '
+                           '(or freed without being released)')
+        for c, q in sorted(cs.items()):
+            if q['kind'] == 'array' and not q['freed']:
+                return (k, ARRAY_LEAK)
         return None
 
     for k, ev in enumerate(events):
         t = ev[0]
         if t == 'param':
-            st[ev[1]] = dict(kind='borrowed', held=0, refs=0, derefs=0, wraps=0, null=False, exposed=False)
+            st[ev[1]] = node(ev[1], 'borrowed')
         elif t == 'produce':
             kd = kind_of(ev[2])
             if kd is None:
@@ -196,8 +228,7 @@ def run_path(events, returns_node, local, float_check):
                 for n in st.values():
                     if not protected(n):
                         n['exposed'] = True
-            st[ev[1]] = dict(kind=kd, held=1 if kd == 'owned' else 0, refs=0, derefs=0, wraps=0,
-                             null=False, exposed=False)
+            st[ev[1]] = node(ev[1], kd, held=1 if kd == 'owned' else 0, made_from=ev[3])
         elif t in ('ref', 'deref', 'wrap', 'initCall'):
             n = st.get(ev[1])
             if n is None:
@@ -206,7 +237,7 @@ def run_path(events, returns_node, local, float_check):
                 if ev[2] not in REFS:
                     return (k, f'not a reference function: {ev[2]}')
                 if float_check and n['exposed']:
-                    return (k, 'unprotected node used after a node-creating call')
+                    return (k, 'unprotected node used after a node-creating call or a recursive dereference')
                 n['held'] += 1
                 n['refs'] += 1
             elif t == 'deref':
@@ -216,9 +247,14 @@ def run_path(events, returns_node, local, float_check):
                     return (k, 'deref without a reference to give back')
                 n['held'] -= 1
                 n['derefs'] += 1
+                if float_check and ev[2] in RECURSIVE_DEREFS:
+                    # frees what only this node kept alive: a fresh unprotected result may be among it
+                    for y, m in st.items():
+                        if not (protected(m) or y == ev[1] or ev[1] in m['made_from']):
+                            m['exposed'] = True
             else:
                 if t == 'wrap' and float_check and n['exposed']:
-                    return (k, 'unprotected node used after a node-creating call')
+                    return (k, 'unprotected node used after a node-creating call or a recursive dereference')
                 n['wraps'] += 1
         elif t == 'isNull':
             n = st.get(ev[1])
@@ -235,11 +271,111 @@ def run_path(events, returns_node, local, float_check):
             if n is None:
                 return (k, 'return of an untracked node')
             if float_check and n['exposed']:
-                return (k, 'unprotected node used after a node-creating call')
+                return (k, 'unprotected node used after a node-creating call or a recursive dereference')
             return end(k)
         elif t in ('retHandle', 'retNull', 'raise'):
             return end(k)
+        # -- containers ------------------------------------------------------------
+        elif t in ('alloc', 'cnew', 'cparam'):
+            if t == 'alloc' and ev[2] not in ALLOCS:
+                return (k, f'not an allocation function: {ev[2]}')
+            cs[ev[1]] = dict(kind={'alloc': 'array', 'cnew': 'pyobj', 'cparam': 'param'}[t],
+                             size=ev[3] if t == 'alloc' else '', owned=[], borrowed=[],
+                             may_hold=False, released=False, ever_released=False, freed=False)
+        elif t == 'store':
+            q, n = cs.get(ev[1]), st.get(ev[2])
+            if q is None:
+                return (k, 'store into an untracked container')
+            if n is None:
+                return (k, 'store of an untracked node')
+            if q['freed']:
+                return (k, 'container used after it was freed')
+            if float_check and n['exposed']:
+                return (k, 'unprotected node used after a node-creating call or a recursive dereference')
+            if n['held'] > 0:
+                n['held'] -= 1
+                n['in_cont'] += 1
+                q['owned'].append(ev[2])
+                q['released'] = False
+            else:
+                q['borrowed'].append(ev[2])
+        elif t == 'load':
+            q = cs.get(ev[2])
+            if q is None:
+                return (k, 'load from an untracked container')
+            if q['freed']:
+                return (k, 'container used after it was freed')
+            st[ev[1]] = node(ev[1], 'borrowed', exposed=q['released'], from_cont=ev[2])
+        elif t == 'passC':
+            q = cs.get(ev[1])
+            if q is None:
+                return (k, 'an untracked container is handed to a call')
+            if q['freed']:
+                return (k, 'container used after it was freed')
+            if float_check and q['released']:
+                return (k, f'container handed to {ev[2]} after its references were given back')
+            if float_check and any(y in st and st[y]['exposed'] for y in q['borrowed']):
+                return (k, f'container with an unprotected element handed to {ev[2]} after a node-creating call')
+            if ev[2] in local and q['kind'] != 'param':
+                q['may_hold'] = True
+                q['released'] = False
+        elif t == 'derefAll':
+            q = cs.get(ev[1])
+            if ev[2] not in DEREFS:
+                return (k, f'not a dereference function: {ev[2]}')
+            if q is None:
+                return (k, 'the elements of an untracked container are dereferenced')
+            if q['freed']:
+                return (k, 'container used after it was freed')
+            if q['borrowed']:
+                return (k, 'every element is dereferenced, but the container only borrows some of them')
+            if q['released']:
+                return (k, 'the references of the container were already given back')
+            if q['kind'] == 'array' and q['size'] != ev[3]:
+                return (k, 'the loop that gives the references back does not run over the allocated size')
+            for y in q['owned']:
+                st[y]['in_cont'] -= 1
+            if float_check:
+                for y, m in st.items():
+                    if m['from_cont'] == ev[1] or (ev[2] in RECURSIVE_DEREFS and not protected(m)):
+                        m['exposed'] = True
+            q['owned'] = []
+            q['may_hold'] = False
+            q['released'] = True
+            q['ever_released'] = True
+        elif t == 'free':
+            q = cs.get(ev[1])
+            if ev[2] not in FREES:
+                return (k, f'not a deallocation function: {ev[2]}')
+            if q is None:
+                return (k, 'free of an untracked container')
+            if q['freed']:
+                return (k, 'container freed twice')
+            if q['kind'] == 'pyobj':
+                return (k, 'a Python object is freed')
+            q['freed'] = True
+        elif t == 'refNonPos':
+            n = st.get(ev[1])
+            if n is not None and (n['held'] > 0 or n['wraps'] > 0 or n['in_cont'] > 0):
+                return None     # `x.ref <= 0` while a reference on x is held: the path cannot be taken
+        elif t == 'setField':
+            if ev[2] != 'next':
+                return (k, f'a node is stored into a field without an assumed meaning: {ev[2]}')
+            if ev[1] not in st or ev[3] not in st:
+                return (k, 'field store on an untracked node')
+            if float_check and st[ev[3]]['exposed']:
+                return (k, 'unprotected node used after a node-creating call or a recursive dereference')
+        else:
+            return (k, f'event without a rule: {t}')
     return end(len(events))
+
+
+# (back end, function, exception that ends the path): same list as `knownArrayLeaks` in
+# lean/DD/CWrapReviewed.lean -- memory only, recorded as an observation
+KNOWN_ARRAY_LEAKS = {('cudd', 'BDD._multi_compose', 'ValueError')}
+
+CONT_EVENTS = ('alloc', 'cnew', 'cparam', 'store', 'load', 'passC', 'derefAll', 'free', 'refNonPos',
+               'setField')
 
 
 def _count(events, kinds):
@@ -253,9 +389,13 @@ def method_problem(m, local):
     if role == 'plain':
         for i, evs in enumerate(paths):
             bad = run_path(evs, m['returns_node'], local, False)
-            if bad is not None:
+            if bad is not None and bad[1] != ARRAY_LEAK:
                 return (i, bad[0], bad[1])
         return None
+    for i, evs in enumerate(paths):
+        for k, e in enumerate(evs):
+            if e[0] in CONT_EVENTS:
+                return (i, k, f'{m["name"]} keeps references in a container')
     if role == 'wrapFn':
         ok = (len(paths) == 1 and len(paths[0]) == 3 and paths[0][0][0] == 'param'
               and paths[0][1] == ('initCall', paths[0][0][1]) and paths[0][2] == ('retHandle',))
@@ -476,13 +616,34 @@ def check_C19(ctx):
     # reference traces
     covered = []
     npaths = 0
+    array_leaks = []        # observation, not a C19 violation: no node reference is involved
+    dead_asserts = []       # `cuddRef(x); if x.ref <= 0: raise AssertionError`: cannot fire; would leak if it did
     for tag, ms in data['traces'].items():
         local = set(data['local'][tag])
         for m in ms:
             covered.append(f'{tag}:{m["name"]}@{m["role"]}')
-            for evs, _n in m['paths']:
+            for i, (evs, _n) in enumerate(m['paths']):
                 npaths += 1
                 ctx.case((tag, m['name'], tuple(evs)))
+                if m['role'] != 'plain':
+                    continue
+                bad = run_path(evs, m['returns_node'], local, False)
+                if bad is not None and bad[1] == ARRAY_LEAK:
+                    array_leaks.append(dict(backend=tag, method=m['name'], line=m['line'], path=i,
+                                            ends=list(evs[-1])))
+                    exc = evs[-1][1] if evs and evs[-1][0] == 'raise' else None
+                    if (tag, m['name'], exc) not in KNOWN_ARRAY_LEAKS:
+                        ctx.violation(
+                            f'{tag} {m["name"]} (line {m["line"]}): {ARRAY_LEAK}',
+                            dict(backend=tag, method=m['name'], line=m['line'],
+                                 path=[list(e) for e in evs], event=bad[0],
+                                 tags=dict(call=f'{tag}.{m["name"]}', symptom='array-not-freed')))
+                if bad is None and any(e[0] == 'refNonPos' for e in evs):
+                    rest = [e for e in evs if e[0] != 'refNonPos']
+                    leak = run_path(rest, m['returns_node'], local, False)
+                    if leak is not None:
+                        dead_asserts.append(dict(backend=tag, method=m['name'], line=m['line'], path=i,
+                                                 if_it_fired=leak[1]))
             bad = method_problem(m, local)
             if bad is not None:
                 i, k, why = bad
@@ -495,7 +656,10 @@ def check_C19(ctx):
             if m['role'] == 'plain':
                 for i, (evs, names) in enumerate(m['paths']):
                     bad = run_path(evs, m['returns_node'], local, True)
-                    if bad is not None and run_path(evs, m['returns_node'], local, False) is None:
+                    if bad is not None and bad[1] == ARRAY_LEAK:
+                        bad = None
+                    plain = run_path(evs, m['returns_node'], local, False)
+                    if bad is not None and (plain is None or plain[1] == ARRAY_LEAK):
                         ctx.violation(
                             f'{tag} {m["name"]} (line {m["line"]}): {bad[1]}',
                             dict(backend=tag, method=m['name'], line=m['line'],
@@ -521,6 +685,9 @@ def check_C19(ctx):
                        'lean/DD/CWrap.lean (assumed meaning and reference behaviour of the C API)'],
         apply=summary,
         operator_methods={tag: [q for q, _s, _o in rows] for tag, rows in data['operators'].items()},
+        observations=dict(
+            arrays_not_freed=array_leaks,
+            assertions_that_cannot_fire_but_would_leak=dead_asserts),
         traces=dict(covered_methods=len(covered), paths=npaths, fingerprint=fp,
                     functions_per_file=data['nfuncs'],
                     without_node_events=data['irrelevant'],
